@@ -276,9 +276,10 @@ func (m *model) applyTx(o op, x ext, name string, signer, locker string, code ui
 		nt := &mTracker{Ext: o.Ext, Kind: o.Kind, Cur: x.Cur, Amount: x.Amount, Submitter: signer, Status: "ongoing", Name: name, Gen: 1}
 		if t != nil {
 			nt.Gen, nt.Minted, nt.Refunded = t.Gen+1, t.Minted, t.Refunded
-			if t.Status == "ongoing" && t.Wit != nil {
-				// (already reported above) the implementation overwrote an ongoing tracker: keep judging the
-				// new one against the same recorded witnesses instead of cascading into follow-up reports
+			if t.Wit != nil && !(isLock && t.Status == "failed") {
+				// (already reported above) the implementation accepted a second tracker: keep judging the new
+				// one against the same recorded witnesses (the witness set never changes in these worlds)
+				// instead of cascading into follow-up reports when it completes before it is first seen
 				k := len(t.Wit)
 				nt.Wit = t.Wit
 				nt.Seen, nt.EverYes, nt.EverNo, nt.Strict, nt.start = make([]int, k), make([]int, k), make([]int, k), make([]int, k), make([]int, k)
